@@ -936,6 +936,9 @@ fn lower_choices(probe: &Config) -> Vec<(&'static str, Tree)> {
         }
     }
     v.push(("other languages only", others));
+    // an INVALID compressed file at the path where a lower layer ("d/e/c+d/b.SFX") holds a valid
+    // one: the highest layer that has the file wins, so reading it must fail, not fall through
+    v.push(("invalid d/b.SFX", [("d".to_string(), Node::Dir), (format!("d/b{}", sfx), file(b"\x77 junk, not a stream"))].into_iter().collect()));
     v
 }
 
@@ -952,9 +955,14 @@ pub fn configs(tier: Tier) -> Vec<Config> {
             Tier::Thorough => (3, 4),
         };
         out.push(mk(loc, lang, vec![typed.clone()], format!("{:?}/{:?} layers=[typed]", loc, lang), d1 + 1));
-        for (cn, c) in &choices {
-            out.push(mk(loc, lang, vec![typed.clone(), c.clone()], format!("{:?}/{:?} layers=[typed, {}]", loc, lang, cn), d2));
+        for (ci, (cn, c)) in choices.iter().enumerate() {
+            // the empty layer adds nothing over [typed]; the look-up-only layers (other languages,
+            // invalid stream) are judged by the per-state observers, one level less is enough
+            let depth = if ci == 0 || ci >= 7 { d2 - 1 } else { d2 };
+            out.push(mk(loc, lang, vec![typed.clone(), c.clone()], format!("{:?}/{:?} layers=[typed, {}]", loc, lang, cn), depth));
         }
+        // a higher lower-layer holding undecodable files over valid ones below
+        out.push(mk(loc, lang, vec![typed.clone(), choices[4].1.clone(), choices[8].1.clone()], format!("{:?}/{:?} layers=[typed, d/e/c+d/b.SFX, invalid d/b.SFX]", loc, lang), 2));
         // start from a populated top layer: temporary/backup-style siblings of every write path
         {
             let mut c = mk(loc, lang, vec![typed.clone(), choices[1].1.clone()], format!("{:?}/{:?} layers=[typed, a] top starts with .tmp/.bak/~ siblings", loc, lang), d1);
